@@ -398,6 +398,7 @@ func runC10(cfg Config) {
 			monitor("concurrent sparse read returned bytes that differ from the blob ("+bad+")", caseLine, "")
 		}
 	}
+	runMountFS10(cfg, rep, m, rng)
 	rep.Write(cfg.Out)
 }
 
